@@ -15,11 +15,12 @@ import PoetryVerif.Drv.Build
 import PoetryVerif.Drv.Select
 import PoetryVerif.Drv.Dep
 import PoetryVerif.Drv.EqHash
+import PoetryVerif.Drv.Proj621
 
 open Poetry Poetry.Proto
 
 def handlers : List (String → List String → Option String) :=
-  [Poetry.Drv.handleVC, Poetry.Drv.handleGeneric, Poetry.Drv.handleMarkerAll, Poetry.Drv.handleConc, Poetry.Drv.handleMeta, Poetry.Drv.handleSpec440, Poetry.Drv.handleSelect, Poetry.Drv.handleBuild, Poetry.Drv.handleEqHash, Poetry.Drv.handleDep]
+  [Poetry.Drv.handleVC, Poetry.Drv.handleGeneric, Poetry.Drv.handleMarkerAll, Poetry.Drv.handleConc, Poetry.Drv.handleMeta, Poetry.Drv.handleSpec440, Poetry.Drv.handleSelect, Poetry.Drv.handleBuild, Poetry.Drv.handleEqHash, Poetry.Drv.handleDep, Poetry.Drv.handleProj621]
 
 def dispatch (op : String) (args : List String) : List (String → List String → Option String) → String
   | [] => "bad-op"
